@@ -151,21 +151,20 @@ def insert_case(draw):
     prog = draw(gen.program_st(max_files=1, skip=True))
     body = prog["files"][prog["mains"][0]]
     blobs = {}
+    # positions are chosen on the original body and applied from the back, so both variants get the pieces at the same places
+    pts = gen.even_points(body)
+    places = sorted((draw(st.sampled_from(pts)) for _ in range(draw(st.integers(1, 2)))), reverse=True)
     body2 = list(body)
-    for i in range(draw(st.integers(1, 2))):
+    body = list(body)
+    for i, pos in enumerate(places):
         data = draw(st.one_of(st.binary(min_size=0, max_size=8), st.binary(min_size=0, max_size=300)))
         pad = draw(st.booleans())
         path = f"bin/b{i}.dat"
         blobs[path] = data
-        pos = draw(st.sampled_from(gen.even_points(body)))
-        ins = [{"k": "insert", "path": path}] + ([{"k": "even"}] if len(data) % 2 or pad else [])
-        alt = ([{"k": "data", "d": "byte", "es": [("num", b) for b in data]}] if data else []) + ([{"k": "even"}] if len(data) % 2 or pad else [])
-        # same position in both lists: positions are computed on the original body, insert from the back
-        body[pos:pos] = ins
-        body2[pos:pos] = alt
-        body, body2 = body, body2
-        if i == 0 and draw(st.booleans()):
-            break
+        tail = [{"k": "even"}] if len(data) % 2 or pad else []
+        body[pos:pos] = [{"k": "insert", "path": path}] + tail
+        body2[pos:pos] = ([{"k": "data", "d": "byte", "es": [("num", b) for b in data]}] if data else []) + tail
+    prog = dict(prog, files={prog["mains"][0]: body})
     a = dict(prog, blobs=blobs)
     b = dict(prog, files={prog["mains"][0]: body2}, blobs={})
     return a, b, {"bytes": sum(len(v) for v in blobs.values())}
